@@ -273,13 +273,23 @@ func checkPublisher(p *Prog, r *Roles, lr *leaderRoles, res *Result) {
 		if st.Parent() != pub {
 			continue
 		}
+		// the answer may be built by a helper that is handed the revision: the publisher is then its (only) caller
+		val, at := ssa.Value(st.Val), ssa.Instruction(st)
+		if prm, isPrm := resolve(val).(*ssa.Parameter); isPrm && prm.Parent() == pub {
+			if sites, ok := p.liftSites(pub); ok && len(sites) == 1 {
+				if cs, isCall := sites[0].(ssa.CallInstruction); isCall && paramIndex(prm) < len(cs.Common().Args) {
+					val, at = cs.Common().Args[paramIndex(prm)], sites[0]
+					pub = at.Parent()
+				}
+			}
+		}
 		construct := funcName(pub) + ": published revision"
-		c, _, ok := extractOf(st.Val)
+		c, _, ok := extractOf(val)
 		if !ok || !(p.isCallToMethod(c, r.BGetCur)) {
-			res.bad("C18-R5", construct, p.pos(st.Pos()), "the published revision is not Backend.GetCurrentRevision()")
+			res.bad("C18-R5", construct, p.pos(at.Pos()), "the published revision is not Backend.GetCurrentRevision()")
 			continue
 		}
-		if lr.leaderKnown(p, st.Block(), false) {
+		if lr.leaderKnown(p, at.Block(), false) {
 			res.ok("C18-R5", construct, p.pos(st.Pos()), "committed revision published under IsLeader()==true")
 		} else {
 			res.bad("C18-R5", construct, p.pos(st.Pos()), "the revision is published without an established IsLeader()==true")
@@ -298,15 +308,19 @@ func checkPublisher(p *Prog, r *Roles, lr *leaderRoles, res *Result) {
 			}
 			// follow from the successor: first invoke on http.ResponseWriter
 			construct := funcName(pub) + ": non-leader answer"
+			// (the write may sit in a small reply helper of the package: the search enters it, and the status is
+			// traced back to the frame of the handler)
 			var first ssa.CallInstruction
-			searchFrom(b.Succs[s], 0, searchOpts{stop: func(ins ssa.Instruction) bool {
+			var firstFr *frame
+			rg := &fnRegion{root: pub, descend: func(g *ssa.Function) bool { return g.Pkg == pub.Pkg && g.Synthetic == "" }}
+			rg.search(&frame{fn: pub}, b.Succs[s], 0, superOpts{stop: func(ins ssa.Instruction, fr *frame) bool {
 				c, ok := ins.(ssa.CallInstruction)
 				if !ok || !c.Common().IsInvoke() {
 					return false
 				}
 				if isNamed(c.Common().Value.Type(), "net/http", "ResponseWriter") {
 					if first == nil {
-						first = c
+						first, firstFr = c, fr
 					}
 					return true
 				}
@@ -318,7 +332,7 @@ func checkPublisher(p *Prog, r *Roles, lr *leaderRoles, res *Result) {
 			}
 			code, isConst := int64(0), false
 			if first.Common().Method.Name() == "WriteHeader" {
-				code, isConst = constInt(first.Common().Args[0])
+				code, isConst = constInt(rg.origin(first.Common().Args[0], firstFr))
 			}
 			if first.Common().Method.Name() == "WriteHeader" && isConst && code >= 400 {
 				res.ok("C18-R5", construct, p.pos(first.Pos()), fmt.Sprintf("first write on the non-leader branch is WriteHeader(%d)", code))
